@@ -3,7 +3,7 @@
 Theorems: coq/C16/Properties_C16.v (decimal/hex/octal/binary round trips for every integer, canonical
 form, pad length, sign-first zero padding of printf, %% literal, the interpolation splitter partitions
 the literal for every byte string, {{ }} literal, single-space joining, output in order up to an error
-exit; three laws refuted on the faithful model = known findings).
+exit; five laws refuted on the faithful model = known findings).
 Tie: generated Cb programs (declarations + print/println statements + optionally a failing statement)
 are run on /repo's binary; the extracted model (bin/c16_model) is given the same statements; stdout
 bytes are compared.  Independently every statement carries the output the property's own reading
@@ -32,9 +32,10 @@ META = {
             "unsigned views), decimal output is canonical, padded length = max(width, digits), printf zero padding keeps "
             "the sign first, %% gives %, the splitter's segments re-assemble to the literal for every byte string, "
             "{{ }} give braces, text outside braces is byte-identical, arguments are joined by single spaces, output "
-            "appears in statement order up to an error exit. Three laws are refuted on the faithful model (known "
+            "appears in statement order up to an error exit. Five laws are refuted on the faithful model (known "
             "findings: {n:0N} pads in front of the sign, %c of a 0 byte prints the decimal number, escapes are not "
-            "processed in multi-argument println). On every run the extracted model and /repo's binary are run on "
+            "processed in multi-argument println, an escaped backslash hides a following directive, escapes are "
+            "processed after substitution). On every run the extracted model and /repo's binary are run on "
             "the same generated programs (values at and around every power of two and integer type limit through every "
             "converter, widths 0-20, arities 1-6, ASCII/UTF-8/raw high bytes, programs that fail after printing) and "
             "stdout bytes are compared; the output demanded by the property's own reading is compared as well.",
